@@ -216,7 +216,7 @@ ArgsToks(args, i, st) ==
   IF i > Len(args) THEN <<>>
   ELSE (IF args[i].key # <<>> THEN <<args[i].key, <<61>>>> ELSE <<>>)
        \o ValToks(args[i].v, st)
-       \o (IF st = 2 \/ (st \in {0, 3} /\ i < Len(args)) THEN <<<<44>>>> ELSE <<>>)
+       \o (IF st = 2 \/ (st \in {0, 3} /\ i < Len(args) /\ Bug # "FormatDropsCommas") THEN <<<<44>>>> ELSE <<>>)
        \o ArgsToks(args, i + 1, st)
 ProgToks(p, i, st) ==
   IF i > Len(p) THEN <<>>
@@ -447,6 +447,19 @@ NormalForm(m, p) == LET r == FromProg(m, p) IN
                     r.errs = <<>> => LET q == Norm(m, p) IN FromProg(m, q) = r /\ Norm(m, q) = q
 \* text level: every layout of a program reads back as that program
 RenderReads(p, st) == Read(Render(p, st)) = [ok |-> TRUE, p |-> p]
+(* Formatting (lang::format).  The property asks two things of a formatter:  *)
+(* the formatted text reads as the same program, and formatting it again    *)
+(* changes nothing.  Format below is the reference formatter -- layout 0 of  *)
+(* what the text spells; the real one keeps comments and breaks lines, which *)
+(* the property does not speak about.  A text that does not lex into the    *)
+(* call level has no formatting: the formatter must report its errors.      *)
+Format(text) == LET r == Read(text) IN
+                IF r.ok THEN [ok |-> TRUE, text |-> Render(r.p, 0)] ELSE [ok |-> FALSE, text |-> <<>>]
+FormatLaws(text) == LET f == Format(text) IN
+                    f.ok => /\ Read(f.text) = Read(text)          \* same program
+                            /\ Format(f.text) = f                 \* idempotent
+\* formatting does not depend on how the program was laid out
+FormatCanonical(p, st) == Format(Render(p, st)) = Format(Render(p, 0))
 \* the whole way: list -> calls -> text -> tokens -> calls -> list
 TextRoundTrip(m, how, l, st) ==
   LET rd == Read(Render(ToCalls(m, how, l, {}), st)) IN rd.ok /\ FromProg(m, rd.p) = [list |-> l, errs |-> <<>>]
@@ -475,13 +488,23 @@ TextRoundTrip(m, how, l, st) ==
 (*                   without being counted, token positions are off from   *)
 (*                   there on (anything may follow, including slicing      *)
 (*                   inside a multi-byte character)                        *)
+(*    u_unclosed     \u{ whose hex digits run into a `"` (or the end of the*)
+(*                   text) before `}`: the bracket matcher (Lexer::build)  *)
+(*                   ends the string at that quote, the tokenizer scans on *)
+(*                   for `}` -- the two disagree about what is inside the  *)
+(*                   string from there on                                  *)
+(*                   For these two the specification makes no prediction   *)
+(*                   about the rest of the text (Desync).                  *)
 (*    ratio_fraction a glue_ratio string whose fraction holds a character  *)
 (*                   below `0`: `c as u8 - b'0'` (common, overflow checks) *)
 DevFormat    == "format_ignores_errors"
 DevPrintFont == "print_panics_font_above_i32"
 DevPanic(trigger) == "panic_" \o trigger
-PanicTriggers == {"int_overflow", "dim_overflow", "coef_overflow", "u_overflow", "u_no_brace", "ratio_fraction"}
+PanicTriggers == {"int_overflow", "dim_overflow", "coef_overflow", "u_overflow", "ratio_fraction"}
+DesyncTriggers == {"u_no_brace", "u_unclosed"}
+DevDesync(trigger) == "lexer_desync_" \o trigger
 AllDevs == {DevRatioSign, DevFormat, DevPrintFont} \cup {DevPanic(x) : x \in PanicTriggers}
+           \cup {DevDesync(x) : x \in DesyncTriggers}
 
 \* [source file, message prefix] of the panic a trigger is recorded with
 PanicSig(trigger) ==
